@@ -8,6 +8,7 @@ from __future__ import annotations
 
 import itertools
 import json
+import os
 
 from mc import core, harness
 
@@ -24,7 +25,8 @@ LEVEL_NOTE = "Bounds: alphabet and base codebases in evidence.bounds. Strings co
 # same as an embedded one for `$`-anchored regular expressions), plus format-like strings
 _HOSTILE_CHARS = ['"', "\\", "\n", "\r", "\t", "\x01", "\x7f", "\x0c", "\u2028", "\u0085", "é", "日本", "😀", "'"]
 STRINGS = ["a"] + [f for c in _HOSTILE_CHARS for f in (c, c + "a", "a" + c + "b", "main" + c)] + \
-          ['\\"', "a\\\\", '"}', "{0}", "%s", "${x}", "\\u0041", "a\r\n", " a ", "\n\n", "true", "null", "0"]
+          ['\\"', "a\\\\", '"}', "{0}", "%s", "${x}", "\\u0041", "a\r\n", " a ", "\n\n", "true", "null", "0"] + \
+          ["~", "~/proj", "~user/x", os.path.expanduser("~") + "fs/p", os.path.expanduser("~") + "/p"]  # home-directory spellings (any field, the root above all)
 HOSTILE = ['a"b', "a\\b", '\\"', "a\nb", '"}', "😀", "a\\", "main\n", "\r"]
 FIELDS = ["root", "dir", "stem", "function", "owner", "repo", "branch", "checksum", "version"]
 BASES = {
@@ -38,6 +40,8 @@ BASES = {
     # the stored line total is a field of its own: 0 with functions, non-zero without, different from the sum (4th item = loc)
     # numbers beyond 32 and 53 bits (a generated file, a bundle on one line): JSON has no integer limit and neither has the report
     "big-numbers": [("{stem}.py", "Python", [2 ** 31, 5, 2 ** 31 - 1], 2 ** 40), ("b.js", "JavaScript", [10 ** 12]), ("{dir}/c.java", "Java", [2 ** 53 + 1, 61], 2 ** 63)],
+    # the same measurement (name, span, length) more than once in a file's list, also as its last element (merged reports)
+    "dup-measurements": [("{stem}.py", "Python", [12, 31, 12], None, "dup"), ("b.js", "JavaScript", [61, 61], None, "dup")],
     "odd-loc": [("{stem}.py", "Python", [12, 7], 0), ("b.js", "JavaScript", [], 20), ("{dir}/c.java", "Java", [61], 100), ("{dir}/d.java", "Java", [31], 1)],
 }
 
@@ -56,8 +60,11 @@ def build(base, sub, with_repo, with_version):
         path = tmpl.format(dir=v["dir"], stem=v["stem"])
         names = [v["function"] + str(i) for i in range(len(lengths))]
         entry = harness.file_entry(path, lang, lengths, checksum=v["checksum"], names=names)
-        if loc:
+        if loc and loc[0] is not None:
             entry.loc = loc[0]
+        if len(loc) > 1 and loc[1] == "dup":
+            ms = entry.measurements()
+            ms[-1] = ms[0]  # the last measurement IS the first one again (same object, hence equal in every field)
         cb.add_file(entry)
         files.append((path, lang, lengths, names))
     cb.aggregate()
